@@ -170,6 +170,33 @@ func c07Spaces(tier string) []*explore.Space {
 			}
 		}
 	}
+	// K6: ABSOLUTE path operands (walked once per outer node / per candidate)
+	var k6 []gen.Expr
+	var k6h []hostCase
+	absOps := []gen.Expr{gen.AbsP(gen.Ch("a")), gen.AbsP(gen.Ch("a"), gen.At("x")), gen.AbsP(gen.Ch("*"), gen.Ch("*")), gen.AbsP(gen.DSlash(), gen.Ch("a")), gen.AbsP(gen.Ch("a"), gen.Ch("text()")), gen.AbsP(gen.DSlash(), gen.At("*")), gen.AbsP(gen.Ch("*"), gen.At("a"))}
+	for _, op := range cmpOps {
+		for _, ab := range absOps {
+			for _, b := range nums[:3] {
+				k6 = append(k6, gen.B(op, ab, b), gen.B(op, b, ab))
+			}
+		}
+	}
+	for _, op := range []string{"=", "!="} {
+		for _, ab := range absOps {
+			for _, a := range append(append([]gen.Expr{}, nss...), relPath(gen.Ch("*"), gen.Ch("*")), relPath(gen.Ch("*"), gen.At("*")), relPath(gen.DSlash2()...)) {
+				k6 = append(k6, gen.B(op, a, ab), gen.B(op, ab, a))
+			}
+			for _, b := range absOps {
+				k6 = append(k6, gen.B(op, ab, b))
+			}
+			for _, h := range []gen.Step{gen.Ch("*"), gen.St("descendant-or-self", "node()")} {
+				for _, a := range nsOperandsRel() {
+					k6h = append(k6h, hostCase{relPath(withPred(h, gen.B(op, a, ab))), relPath(h)}, hostCase{relPath(withPred(h, gen.B(op, ab, a))), relPath(h)},
+						hostCase{gen.AbsP(gen.DSlash(), withPred(gen.Ch("*"), gen.B(op, a, ab))), gen.AbsP(gen.DSlash(), gen.Ch("*"))})
+				}
+			}
+		}
+	}
 	// K5: a cursor-moving operand first, a context-dependent operand second:
 	// at top level and inside a predicate
 	var k5 []gen.Expr
@@ -207,6 +234,8 @@ func c07Spaces(tier string) []*explore.Space {
 		hostSpace(fmt.Sprintf("K4xV%d", n), "the same comparisons inside a predicate", k4, docs, "C07"),
 		exprSpace(fmt.Sprintf("K5xV%d", n), "and/or and =/!= whose first operand walks a long axis or carries a predicate and whose second operand depends on the context node", k5, docs, ev),
 		hostSpace(fmt.Sprintf("K5pxV%d", n), "the same inside a predicate", k5h, docs, "C07"),
+		exprSpace(fmt.Sprintf("K6xV%d", n), "comparisons with absolute path operands (against numbers, relative and absolute node-sets)", k6, docs, ev),
+		hostSpace(fmt.Sprintf("K6pxV%d", n), "the same inside a predicate (several candidates per evaluation)", k6h, docs, "C07"),
 	}
 }
 
